@@ -361,6 +361,11 @@ def describe(G):
                 views.append('left_neighbors(%d)=%r' % (v, list(G.left_neighbors(v))))
         if G.number_of_edges() != len(E) or any(not G.has_edge(u, v) for (u, v) in E):
             views.append('number_of_edges/has_edge')
+        Eset = set(E)
+        for u in range(1, L + 1):
+            for v in range(1, R + 1):
+                if bool(G.has_edge(u, v)) != ((u, v) in Eset):
+                    views.append('has_edge(%d,%d)=%r' % (u, v, G.has_edge(u, v)))
         return {'type': 'bipartite', 'L': L, 'R': R, 'edges': E, 'views': views[:3]}
     if G.is_directed():
         E = sorted(list(map(tuple, G.edges())))
@@ -372,6 +377,11 @@ def describe(G):
                 views.append('predecessors(%d)' % u)
         if G.number_of_edges() != len(E):
             views.append('number_of_edges')
+        Eset = set(E)
+        for u in range(1, n + 1):
+            for v in range(1, n + 1):
+                if bool(G.has_edge(u, v)) != ((u, v) in Eset):
+                    views.append('has_edge(%d,%d)=%r' % (u, v, G.has_edge(u, v)))
         return {'type': 'directed', 'n': n, 'is_dag': G.is_dag(), 'edges': E, 'views': views[:3]}
     E = sorted(list(map(tuple, G.edges())))
     n = G.number_of_vertices()
@@ -383,6 +393,17 @@ def describe(G):
             views.append('degree(%d)=%d instead of %d' % (u, G.degree(u), len(nb)))
     if G.number_of_edges() != len(E) or any(not (G.has_edge(u, v) and G.has_edge(v, u)) for (u, v) in E):
         views.append('number_of_edges/has_edge')
+    # membership in both orientations for EVERY pair (non-edges too), through
+    # has_edge and through the edge view
+    Eset = set(E)
+    EV = G.edges()
+    for u in range(1, n + 1):
+        for v in range(1, n + 1):
+            want = (min(u, v), max(u, v)) in Eset and u != v
+            if bool(G.has_edge(u, v)) != want:
+                views.append('has_edge(%d,%d)=%r' % (u, v, G.has_edge(u, v)))
+            if ((u, v) in EV) != want:
+                views.append('(%d,%d) in edges() is %r' % (u, v, (u, v) in EV))
     return {'type': 'simple', 'n': n, 'edges': E, 'views': views[:3]}
 
 
